@@ -21,6 +21,12 @@ pub struct FileSpec {
     pub far: u8,
     /// base-repository file stored under an `exK/` folder of an expansion that is NOT installed (0 = no)
     pub fallback_exp: u8,
+    /// in a chunk that has both index kinds: 0 listed in both, 1 only in the index, 2 only in the index2
+    #[serde(default)]
+    pub only: u8,
+    /// the entry word carries the synonym flag (bit 0)
+    #[serde(default)]
+    pub synonym: bool,
 }
 
 #[derive(Clone, Debug, Serialize, Deserialize)]
@@ -77,8 +83,8 @@ fn tail() -> BoxedStrategy<String> {
 }
 
 fn file_spec() -> BoxedStrategy<FileSpec> {
-    (tail(), 0u8..8, prop_oneof![4 => 0u16..40, 1 => 0u16..2000], prop_oneof![12 => Just(0u8), 1 => 1u8..8], prop_oneof![5 => Just(0u8), 1 => 1u8..10])
-        .prop_map(|(tail, dat, slot, far, fallback_exp)| FileSpec { tail, dat, slot, far, fallback_exp })
+    (tail(), 0u8..8, prop_oneof![4 => 0u16..40, 1 => 0u16..2000], prop_oneof![12 => Just(0u8), 1 => 1u8..8], prop_oneof![5 => Just(0u8), 1 => 1u8..10], prop_oneof![6 => Just(0u8), 1 => Just(1u8), 1 => Just(2u8)], prop::bool::weighted(0.06))
+        .prop_map(|(tail, dat, slot, far, fallback_exp, only, synonym)| FileSpec { tail, dat, slot, far, fallback_exp, only, synonym })
         .boxed()
 }
 
@@ -113,9 +119,9 @@ fn sweep(ctx: &Ctx) -> Vec<Case> {
                     }
                     let kind = (n % 3) as u8;
                     let files = vec![
-                        FileSpec { tail: format!("d{}/f{}.dat", n % 7, n), dat: (n % 8) as u8, slot: (n % 5) as u16, far: 0, fallback_exp: 0 },
-                        FileSpec { tail: format!("g{}.tex", n), dat: ((n / 8) % 8) as u8, slot: 7, far: 0, fallback_exp: 0 },
-                        FileSpec { tail: format!("a/b/c/h{}.mdl", n), dat: 0, slot: 9, far: 0, fallback_exp: 0 },
+                        FileSpec { tail: format!("d{}/f{}.dat", n % 7, n), dat: (n % 8) as u8, slot: (n % 5) as u16, far: 0, fallback_exp: 0, only: 0, synonym: false },
+                        FileSpec { tail: format!("g{}.tex", n), dat: ((n / 8) % 8) as u8, slot: 7, far: 0, fallback_exp: 0, only: 0, synonym: false },
+                        FileSpec { tail: format!("a/b/c/h{}.mdl", n), dat: 0, slot: 9, far: 0, fallback_exp: 0, only: 0, synonym: false },
                     ];
                     let q = |op, kind, pick| Query { op, kind, pick, flips: vec![n as u16, (n * 7) as u16, 0], salt: "zz".into() };
                     out.push(Case {
@@ -143,6 +149,9 @@ struct Stored {
     content: Vec<u8>,
     /// position of the entry inside its index2 table is in the second half
     second_half: bool,
+    /// 0 listed in every index file of its chunk, 1 only in the index, 2 only in the index2
+    only: u8,
+    synonym: bool,
 }
 
 struct Model {
@@ -230,25 +239,31 @@ fn materialise(c: &Case) -> (Install, Model) {
             let entry = sqpack::standard_entry(&[BlockSpec { data: content.clone(), mode }], 0, &[]);
             assert!(entry.len() <= 512);
             dats.entry(f.dat).or_default().push((offset, entry));
-            records.push(IndexRecord { path: path.clone(), dat_id: f.dat, offset, synonym: false });
-            model.stored.push(Stored { path, exp, cat: cat_id, chunk: ch.chunk, dat: f.dat, offset, kind: ch.kind, content, second_half: false });
+            let only = if ch.kind == 2 { f.only } else { 0 };
+            records.push(IndexRecord { path: path.clone(), dat_id: f.dat, offset, synonym: f.synonym });
+            model.stored.push(Stored { path, exp, cat: cat_id, chunk: ch.chunk, dat: f.dat, offset, kind: ch.kind, content, second_half: false, only, synonym: f.synonym });
         }
         if records.is_empty() {
             seen_chunks.remove(&(exp, ch.cat, ch.chunk));
             continue;
         }
+        // a chunk with both index kinds may list a file in only one of them: it is stored all the same
+        let listed = |which: u8| -> Vec<usize> { (0..records.len()).filter(|i| model.stored[first_new + i].only == 0 || model.stored[first_new + i].only == which).collect() };
         if ch.kind == 0 || ch.kind == 2 {
-            inst.write(exp, &format!("{}.index", stem), &sqpack::index_file(c.platform, -1, false, &records, 8, ch.sorted));
+            let recs: Vec<IndexRecord> = listed(1).into_iter().map(|i| records[i].clone()).collect();
+            inst.write(exp, &format!("{}.index", stem), &sqpack::index_file(c.platform, -1, false, &recs, 8, ch.sorted));
         }
         if ch.kind == 1 || ch.kind == 2 {
-            inst.write(exp, &format!("{}.index2", stem), &sqpack::index_file(c.platform, if ch.chunk % 2 == 0 { -1 } else { 1 }, true, &records, 8, ch.sorted));
+            let ids = listed(2);
+            let recs: Vec<IndexRecord> = ids.iter().map(|i| records[*i].clone()).collect();
+            inst.write(exp, &format!("{}.index2", stem), &sqpack::index_file(c.platform, if ch.chunk % 2 == 0 { -1 } else { 1 }, true, &recs, 8, ch.sorted));
             // which records sit in the second half of the table (measured class)
-            let mut order: Vec<(u32, usize)> = records.iter().enumerate().map(|(i, r)| (jamcrc_lower(r.path.as_bytes()), i)).collect();
+            let mut order: Vec<(u32, usize)> = ids.iter().map(|i| (jamcrc_lower(records[*i].path.as_bytes()), *i)).collect();
             if ch.sorted {
                 order.sort();
             }
             for (pos, (_, i)) in order.iter().enumerate() {
-                if pos >= records.len() / 2 {
+                if pos >= ids.len() / 2 {
                     model.stored[first_new + i].second_half = true;
                 }
             }
@@ -270,10 +285,10 @@ fn materialise(c: &Case) -> (Install, Model) {
             let s = &model.stored[i];
             let lower = s.path.to_ascii_lowercase();
             let p = lower.rfind('/').unwrap();
-            if ch.kind == 0 || ch.kind == 2 {
+            if (ch.kind == 0 || ch.kind == 2) && s.only != 2 {
                 model.idx1.insert((s.exp, s.cat, jamcrc_lower(lower[..p].as_bytes()), jamcrc_lower(lower[p + 1..].as_bytes())), i);
             }
-            if ch.kind == 1 || ch.kind == 2 {
+            if (ch.kind == 1 || ch.kind == 2) && s.only != 1 {
                 model.idx2.insert((s.exp, s.cat, jamcrc_lower(lower.as_bytes())), i);
             }
         }
@@ -404,7 +419,10 @@ fn prop(c: &Case, ctx: &Ctx) -> PResult {
             let want_rec = model.lookup(&paths[i]);
             let want = expected(q.op, want_rec);
             let got = ask(&mut g, q.op, &paths[i])?;
-            if got != want {
+            // an entry that carries the synonym flag is in the index, so the path exists; which location such an
+            // entry designates is not pinned by the statement (the format keeps a separate synonym table)
+            let unpinned = want_rec.map(|s| s.synonym).unwrap_or(false) && q.op != 0;
+            if got != want && !unpinned {
                 let slug = diagnose(&paths[i], want_rec, &got);
                 return fail(slug, format!("query #{} (pass {}) {} {:?}: physis={} expected={} [installed expansions {:?}, platform {}]", i, pass, ["exists", "find_offset", "extract"][q.op as usize], paths[i], show(&got), show(&want), c.exps, sqpack::PLATFORMS[c.platform as usize]));
             }
@@ -424,6 +442,12 @@ fn prop(c: &Case, ctx: &Ctx) -> PResult {
                         }
                         if paths[i] != s.path {
                             ctx.class("case-flipped-hit");
+                        }
+                        if s.only != 0 {
+                            ctx.classf(format!("listed-only-in:{}", ["", "index", "index2"][s.only as usize]));
+                        }
+                        if s.synonym {
+                            ctx.class("synonym-flagged-entry");
                         }
                         if s.kind == 1 && s.second_half {
                             ctx.class("index2-second-half-hit");
@@ -459,8 +483,8 @@ fn prop(c: &Case, ctx: &Ctx) -> PResult {
 pub fn property() -> Property {
     Property {
         id: "C01",
-        rule: "A case is (installation layout, query history). Layout: platform in 5; base + a shuffled subset of ex1..ex9; 1..6 chunks keyed (repository, category in 15, chunk 0..9), each with index, index2 or both (consistent), sorted or unsorted tables, 1..40 stored paths category/[exN/]dirs/name.ext at 128-aligned offsets in dat0..dat7 (some beyond 4 GiB in sparse files), some base files under the folder of an uninstalled expansion (documented fall-back); every stored file's content embeds (repo, category, chunk, dat, offset, path). History: 1..40 exists/find_offset/extract calls on one handle over stored paths, case-flipped stored paths (category and repository tokens included), absent names, absent folders, other category, other repository, unknown category; then the same queries reversed on a fresh handle. Oracle: stateless model (own JAMCRC): lower-case, category = first component, repository = second component if installed else base, present iff an index/index2 of that (repository, category) holds the hash. Plus a covering sweep over (category, expansion, chunk, platform). evaluations counts individual queries. Non-trivial: a history with at least one positive answer needing an expansion, index2-only chunk, chunk > 0 or dat > 0 AND at least one negative answer; distinct by hash of the case.",
-        assumptions: &["a path is stored in exactly one chunk; synonym-flagged entries and depth-2 paths whose file name is a repository name are not generated (answer would depend on search order)", "CRC-32 collisions between generated paths are ignored (probability ~ 2^-32 per pair)"],
+        rule: "A case is (installation layout, query history). Layout: platform in 5; base + a shuffled subset of ex1..ex9; 1..6 chunks keyed (repository, category in 15, chunk 0..9), each with index, index2 or both (a quarter of the files of a both-kinds chunk are listed in only one of the two), sorted or unsorted tables, 6 % of the entries with the synonym flag (only `exists` is asserted for those), 1..40 stored paths category/[exN/]dirs/name.ext at 128-aligned offsets in dat0..dat7 (some beyond 4 GiB in sparse files), some base files under the folder of an uninstalled expansion (documented fall-back); every stored file's content embeds (repo, category, chunk, dat, offset, path). History: 1..40 exists/find_offset/extract calls on one handle over stored paths, case-flipped stored paths (category and repository tokens included), absent names, absent folders, other category, other repository, unknown category; then the same queries reversed on a fresh handle. Oracle: stateless model (own JAMCRC): lower-case, category = first component, repository = second component if installed else base, present iff an index/index2 of that (repository, category) holds the hash. Plus a covering sweep over (category, expansion, chunk, platform). evaluations counts individual queries. Non-trivial: a history with at least one positive answer needing an expansion, index2-only chunk, chunk > 0 or dat > 0 AND at least one negative answer; distinct by hash of the case.",
+        assumptions: &["a path is stored in exactly one chunk, and when both index kinds list it they designate the same location; depth-2 paths whose file name is a repository name are not generated (answer would depend on search order)", "for an entry with the synonym flag only existence is asserted, not the location (the format keeps a separate synonym table the statement does not describe)", "CRC-32 collisions between generated paths are ignored (probability ~ 2^-32 per pair)"],
         pre: None,
         post: None,
         parts: vec![
